@@ -1,5 +1,6 @@
 import MpfVerif.Lemmas.Light
 import MpfVerif.Lemmas.LightHw
+import MpfVerif.Lemmas.BatchLight
 /-!
 # C09 — Light hardware output equals the priority stack's colour
 
@@ -160,6 +161,41 @@ theorem quiescent_output (ops : List Op) (hq : Quiet (run {} ops).now (run {} op
     sentTc (run {} ops) = getColor (run {} ops).now (run {} ops).stack := by
   rw [hw_target_invariant, target_eq_color_of_quiet _ _ hq]
 
+/-- Batched back end (PlatformBatchLightSystem after the D18 repair): for *every* interleaving of `set_fade` commands
+(`mark`), scheduler iterations, sender computations, callback starts (`flush`) and callback completions (`delivered`) —
+commands may arrive at any point, also while a callback is awaited — no dirty light is lost: every light that ever got a
+command is still dirty, or taken by the sender, or re-scheduled (its fade is running), or the brightness recorded for
+it is the target of its *latest* fade; and the recorded brightness is exactly what the platform has or will have once the
+queued lists are delivered. -/
+theorem batch_no_lost_dirty (ops : List Batch.Op) (l : Nat) :
+    let s := Batch.run {} ops
+    (s.ver l = 0 ∨ l ∈ s.dirty ∨ l ∈ s.pending ∨ l ∈ s.sched.map (·.2) ∨ Batch.Settled s l) ∧
+    Batch.view s l = (s.last l).map (·.1) :=
+  ⟨(Batch.run_inv ops {} Batch.init_inv).1 l, (Batch.run_inv ops {} Batch.init_inv).2 l⟩
+
+/-- …hence at rest (nothing dirty, taken, scheduled, queued or in flight) the platform has received, for every light
+that ever got a command, the target brightness of its latest `set_fade` — transmitted after that `set_fade`, whatever
+happened in between. -/
+theorem batch_quiescent_output (ops : List Batch.Op) (l : Nat)
+    (hrest : (Batch.run {} ops).dirty = [] ∧ (Batch.run {} ops).pending = [] ∧ (Batch.run {} ops).sched = [] ∧
+      (Batch.run {} ops).acc = [] ∧ (Batch.run {} ops).inflight = none)
+    (hv : (Batch.run {} ops).ver l ≠ 0) :
+    ∃ b, (Batch.run {} ops).hw l = some b ∧ Batch.eqB b (((Batch.run {} ops).fade l).tb, 255) := by
+  have h := batch_no_lost_dirty ops l
+  simp only at h
+  obtain ⟨h1, h2⟩ := h
+  obtain ⟨hd, hp, hs, ha, hi⟩ := hrest
+  rw [hd, hp, hs] at h1
+  rcases h1 with h1 | h1 | h1 | h1 | ⟨b, t, hl, he⟩
+  · exact absurd h1 hv
+  · simp at h1
+  · simp at h1
+  · simp at h1
+  · refine ⟨b, ?_, he⟩
+    unfold Batch.view at h2
+    rw [ha, hi, hl] at h2
+    simpa [Batch.lastIn, Batch.pick3] using h2
+
 /-! ### the hypotheses are satisfiable on non-trivial states (kernel evaluation) -/
 
 def exOps : List Op :=
@@ -173,5 +209,9 @@ example : Quiet 20 (run {} (exOps ++ [.adv 14, .fire 4, .adv 20])).stack := by d
 example : (crun {} [.set 8 ⟨0, 8, 255, some 24⟩, .tick 8 1, .tick 9 1, .set 12 ⟨0, 0, 0, none⟩, .tick 13 1]).tasks = [] := by
   decide
 example : (crun {} [.set 8 ⟨0, 8, 255, some 24⟩, .tick 8 1, .tick 9 1]).tasks.length = 1 := by decide
+
+/-- a command arriving while a callback is awaited (the D18 situation) is transmitted in the next round -/
+example : (Batch.run {} [.adv 16, .mark 0 ⟨0, 0, 255, none⟩, .compute 0, .flush, .mark 1 ⟨0, 0, 128, none⟩, .delivered,
+    .compute 1, .flush, .delivered]).hw 1 = some (128, 255) := by decide
 
 end MpfVerif.C09
